@@ -11,7 +11,8 @@ use std::str::FromStr;
 /// names used as field / method names: ids in generated programs that equal the hash of one of these are printed by name
 pub const NAME_POOL: &[&str] = &["a", "b", "name", "id", "record", "opt", "service", "func", "type", "vec", "query", "oneway", "blob", "principal",
     "nat", "null", "reserved", "empty", "import", "composite_query", "a b", "x-y", "1a", "", "héllo", "日本", "\"q\"", "back\\slash", "new\nline", "tab\t",
-    "*/", "${x}", "_", "_0", "__", "A", "Self", "self", "fn", "class", "return", "async", "await", "let", "var", "function", "constructor", "prototype"];
+    "*/", "${x}", "_", "_0", "__", "A", "Self", "self", "fn", "class", "return", "async", "await", "let", "var", "function", "constructor", "prototype",
+    "Type", "Ref", "Use", "Match", "loop_count", "fooBar"];
 thread_local! { static NAMES: HashMap<u32, &'static str> = NAME_POOL.iter().map(|n| (candid::idl_hash(n), *n)).collect(); }
 pub fn quote(s: &str) -> String {
     let bare = !s.is_empty() && s.is_ascii() && s.chars().enumerate().all(|(i, c)| if i == 0 { c.is_ascii_alphabetic() || c == '_' } else { c.is_ascii_alphanumeric() || c == '_' })
